@@ -109,11 +109,11 @@ fn magic_field_decl(recvs: &[Recv], r: &Recv, m: &Magic) -> (String, String) {
         ),
         MagicKind::Fields => ("fields", format!("::darling::ast::Fields<{}>", m.field_recv.map(|i| recvs[i].name()).unwrap_or_else(|| "syn::Field".into()))),
     };
-    let ty = match m.wrap {
-        Wrap::Plain => base,
-        Wrap::Spanned => format!("::darling::util::SpannedValue<{base}>"),
-        Wrap::WithOriginal => base,
-        Wrap::Result => base,
+    let ty = match (m.wrap, m.kind) {
+        (Wrap::Spanned, MagicKind::Generics) => format!("::darling::util::SpannedValue<{base}>"),
+        (Wrap::WithOriginal, MagicKind::Generics) => format!("::darling::util::WithOriginal<{base}, syn::Generics>"),
+        (Wrap::Result, MagicKind::Generics) => format!("::darling::Result<{base}>"),
+        _ => base,
     };
     (name.to_string(), ty)
 }
